@@ -28,6 +28,11 @@ func init() {
 	Theory["le64"] = TheoryFn{SMT: "le64", HeapArg: "byte", Ret: "Int", RetBV: "(_ BitVec 64)", RetT: typU64}
 	Theory["le64z"] = TheoryFn{SMT: "le64z", HeapArg: "byte", Ret: "Int", RetBV: "(_ BitVec 64)", RetT: typU64}
 	Theory["be64"] = TheoryFn{SMT: "be64", HeapArg: "byte", Ret: "Int", RetBV: "(_ BitVec 64)", RetT: typU64}
+	// ChaCha20 (int mode only): ks(sid, i) is byte i of the keystream of stream sid;
+	// chachaStream(key, nonce) names the stream of a 32-byte key and a 12-byte nonce by their contents.
+	Theory["ks"] = TheoryFn{SMT: "ks", Ret: "Int", RetT: types.Typ[types.Uint8]}
+	Theory["xor8"] = TheoryFn{SMT: "xor8", Ret: "Int", RetT: types.Typ[types.Uint8]}
+	Theory["chachaStream"] = TheoryFn{SMT: "chachaStream", HeapArg: "byte", Ret: "Int", RetT: typInt}
 }
 
 // TheoryPrelude returns the SMT-LIB declarations of the spec-level theories for mode m.
@@ -65,6 +70,20 @@ func TheoryPrelude(m Mode) string {
 		fmt.Fprintf(&b, "(define-fun le64 ((h %s) (s Slice)) Int (+ %s))\n", hs, strings.Join(le, " "))
 		fmt.Fprintf(&b, "(define-fun be64 ((h %s) (s Slice)) Int (+ %s))\n", hs, strings.Join(be, " "))
 		fmt.Fprintf(&b, "(define-fun le64z ((h %s) (s Slice) (n Int)) Int (+ %s))\n", hs, strings.Join(lez, " "))
+		b.WriteString("(declare-fun ks (Int Int) Int)\n(declare-fun xor8 (Int Int) Int)\n")
+		b.WriteString("(assert (forall ((x Int)) (! (= (xor8 0 x) x) :pattern ((xor8 0 x)))))\n")
+		b.WriteString("(assert (forall ((s Int) (i Int)) (! (and (<= 0 (ks s i)) (<= (ks s i) 255)) :pattern ((ks s i)))))\n")
+		var sorts, args []string
+		for k := 0; k < 32; k++ {
+			sorts = append(sorts, "Int")
+			args = append(args, fmt.Sprintf("(select (select h (p.obj (sl.ptr k))) (+ (p.off (sl.ptr k)) %d))", k))
+		}
+		for k := 0; k < 12; k++ {
+			sorts = append(sorts, "Int")
+			args = append(args, fmt.Sprintf("(select (select h (p.obj (sl.ptr n))) (+ (p.off (sl.ptr n)) %d))", k))
+		}
+		fmt.Fprintf(&b, "(declare-fun stream44 (%s) Int)\n", strings.Join(sorts, " "))
+		fmt.Fprintf(&b, "(define-fun chachaStream ((h %s) (k Slice) (n Slice)) Int (stream44 %s))\n", hs, strings.Join(args, " "))
 	}
 	b.WriteString(extraTheory[m.BV])
 	return b.String()
